@@ -15,7 +15,7 @@ CONSTANTS
   Fam = {"op", "close", "copy", "stats", "with"}
   OpShapes <- OpsMock
   MaxConn = 2
-  MaxSteps = 6
+  MaxSteps = 7
   GenDepth = 0
   Advs = {0, 2}
   Lens <- LensSmall
